@@ -134,6 +134,9 @@ class InterpMixin:
     def st_Global(self, st, scope):
         scope.globals_decl.update(st.names)
 
+    def st_Nonlocal(self, st, scope):
+        scope.__dict__.setdefault("nonlocal_decl", set()).update(st.names)
+
     def st_Import(self, st, scope):
         for a in st.names:
             name = a.name
@@ -316,9 +319,16 @@ class InterpMixin:
         try:
             self.exec_block(st.body, scope)
         except PyRaise as e:
+            swallowed = False
             for cm in reversed(mgrs):
-                self.call(self.getattr(cm, "__exit__"), [e.exc.cls, e.exc, None], {})
-            raise
+                if swallowed:
+                    self.call(self.getattr(cm, "__exit__"), [None, None, None], {})
+                    continue
+                r = self.call(self.getattr(cm, "__exit__"), [e.exc.cls, e.exc, None], {})
+                if r is not None and r is not False and self.truth(r):
+                    swallowed = True  # a true result of __exit__ suppresses the exception
+            if not swallowed:
+                raise
         except (_Return, _Break, _Continue):
             for cm in reversed(mgrs):
                 self.call(self.getattr(cm, "__exit__"), [None, None, None], {})
@@ -498,6 +508,13 @@ class InterpMixin:
             name = "_" + scope.cls.name.lstrip("_") + name  # private names are mangled in class bodies
         if name in scope.globals_decl and scope.module is not None:
             scope.module.ns[name] = v
+        elif name in getattr(scope, "nonlocal_decl", ()):
+            s_ = scope.parent
+            while s_ is not None and not (name in s_.vars and not getattr(s_, "is_class_body", False)):
+                s_ = s_.parent
+            if s_ is None:
+                raise Unsupported(f"nonlocal {name}: no enclosing binding")
+            s_.vars[name] = v
         else:
             scope.vars[name] = v
 
@@ -516,8 +533,20 @@ class InterpMixin:
             self.store_name(scope, self.mangle(t.id, scope) if False else t.id, v)
         elif isinstance(t, (ast.Tuple, ast.List)):
             items = self.iterate(v)
-            if any(isinstance(e, ast.Starred) for e in t.elts):
-                raise Unsupported("starred assignment")
+            stars = [i for i, e in enumerate(t.elts) if isinstance(e, ast.Starred)]
+            if stars:
+                if len(stars) > 1 or not isinstance(items, (list, tuple)):
+                    raise Unsupported("starred assignment")
+                i, n_after = stars[0], len(t.elts) - stars[0] - 1
+                if len(items) < len(t.elts) - 1:
+                    raise PyRaise(PyExc(ValueError, (f"not enough values to unpack (expected at least {len(t.elts) - 1}, got {len(items)})",)))
+                items = list(items)
+                for e, x in zip(t.elts[:i], items[:i]):
+                    self.assign(e, x, scope)
+                self.assign(t.elts[i].value, items[i:len(items) - n_after], scope)
+                for e, x in zip(t.elts[i + 1:], items[len(items) - n_after:] if n_after else []):
+                    self.assign(e, x, scope)
+                return
             if len(items) != len(t.elts):
                 raise PyRaise(
                     PyExc(ValueError, (f"cannot unpack {len(items)} values into {len(t.elts)}",))
@@ -557,6 +586,9 @@ class InterpMixin:
             return mod.ns[e.id]
         if e.id in self.builtins:
             return self.builtins[e.id]
+        import builtins as _pyb
+        if hasattr(_pyb, e.id) and not self._is_local(e.id, scope):
+            raise Unsupported(f"builtin {e.id} is not modelled")
         raise PyRaise(PyExc(UnboundLocalError if self._is_local(e.id, scope) else NameError, (e.id,)))
 
     def _is_local(self, name, scope):
@@ -609,7 +641,26 @@ class InterpMixin:
             else:
                 try:
                     v = self.eval(p.value, scope)
-                    parts.append(self.to_str(v))
+                    spec = None
+                    if p.format_spec is not None:
+                        spec = self.ex_JoinedStr(p.format_spec, scope)
+                    if p.conversion != -1 or spec not in (None, ""):
+                        plain = isinstance(v, (int, float, str, bool, type(None))) or (isinstance(v, (list, tuple, dict, set)) and not self.contains_symbolic(v))
+                        if plain and isinstance(spec, (str, type(None))):
+                            if p.conversion == ord("r"):
+                                v = repr(v)
+                            elif p.conversion == ord("s"):
+                                v = str(v)
+                            elif p.conversion == ord("a"):
+                                v = ascii(v)
+                            try:
+                                parts.append(format(v, spec or ""))
+                            except (ValueError, TypeError) as ex:
+                                raise PyRaise(PyExc(type(ex), ex.args))
+                        else:
+                            parts.append(SymStr(self.fresh("fstr", z3.StringSort())))  # formatted symbolic value: unconstrained text
+                    else:
+                        parts.append(self.to_str(v))
                 except Unsupported:
                     parts.append(SymStr(self.fresh("fstr", z3.StringSort())))
         out = ""
@@ -620,6 +671,13 @@ class InterpMixin:
     def to_str(self, v):
         if isinstance(v, (str, SymStr)):
             return v
+        if isinstance(v, PyExc):
+            a = v.args
+            if len(a) == 0:
+                return ""
+            if len(a) == 1:
+                return self.to_str(a[0]) if not (v.cls is KeyError) else (repr(a[0]) if isinstance(a[0], (str, int, float)) else self.to_str(a[0]))
+            return self.to_str(tuple(a))
         if isinstance(v, Sym) or self.is_symbolic_collection(v):
             return SymStr(self.fresh("str", z3.StringSort()))
         if isinstance(v, (SObj, EnumMember)):
@@ -760,6 +818,11 @@ class InterpMixin:
             raise PyRaise(PyExc(TypeError, ex.args))
 
     def py_is(self, a, b):
+        tm = getattr(self, "type_models", {})
+        if isinstance(a, type) and a in tm:
+            a = tm[a]
+        if isinstance(b, type) and b in tm:
+            b = tm[b]
         if isinstance(a, SymOpt) or isinstance(b, SymOpt):
             if isinstance(b, SymOpt):
                 a, b = b, a
@@ -796,6 +859,9 @@ class InterpMixin:
             if isinstance(b, str) and b in a.cls.members:
                 return wrap(a.idx == list(a.cls.members).index(b))
             return False
+        if isinstance(a, SObj) and isinstance(b, SObj) and a.cls is b.cls and a.cls.dataclass_fields is not None and a.cls.lookup("__eq__")[0] is None:
+            # @dataclass(eq=True): field-wise tuple comparison
+            return self.py_eq(tuple(a.attrs.get(k) for k in a.cls.dataclass_fields), tuple(b.attrs.get(k) for k in b.cls.dataclass_fields))
         if isinstance(a, SObj):
             f, owner = a.cls.lookup("__eq__")
             if f is not None:
@@ -1147,6 +1213,12 @@ class InterpMixin:
                     return c[kk]
             raise PyRaise(PyExc(KeyError, (k,)))
         if isinstance(c, (list, tuple, str)):
+            if isinstance(k, SymInt) and len(c) <= 16:
+                n = len(c)
+                for i in range(-n, n):
+                    if self.branch(wrap(k.term == i)):
+                        return c[i]
+                raise PyRaise(PyExc(IndexError, ("index out of range",)))
             if isinstance(k, Sym):
                 raise Unsupported("symbolic index into concrete list")
             try:
